@@ -8,7 +8,11 @@ channel is a mock so that "a command reached the engine" is observable.
 
 One shard = one (required-role set R, user-role set U) pair; inside the shard every route discovered from `app.routes`
 is enumerated against two worlds (unit with an active run / unit without one), so the explored space
-routes x R x U x world is enumerated completely.
+routes x R x U x world is enumerated completely. In addition every shard runs the two-session scenarios: for
+every earlier required-role set R0 of the universe an engine lives through two sessions (register, uod-info with R0,
+disconnect; register again, uod-info with R, then disconnect or aggregator shutdown) and the unit listing (every
+parameter-less GET route that lists the unit for an authorised user) plus every GET route with a unit id is judged
+for the user U against the roles of the LATEST session, at four points (online 1, offline 1, online 2, offline 2).
 """
 from __future__ import annotations
 
@@ -36,7 +40,14 @@ RULE = ("every route discovered from app.routes at run time (HTTP routes with a 
         "with an active run / unit whose run has stopped; each also has a persisted recent run and an offline "
         "recent-engine record carrying R). One shard per (R,U). Every denied request is paired with a control request "
         "by a user holding exactly R against identical state (proves the request is well-formed) and with the same "
-        "request for a non-existent id. distinct = (method, route, R, U, world); non-trivial = R is non-empty (a role "
+        "request for a non-existent id. Two-session scenarios: for every earlier role set R0 of the universe x 2 "
+        "endings of the second session (websocket disconnect / aggregator shutdown, restart emulated by emptying the "
+        "in-memory maps over the same database) one engine id goes through session 1 (register, uod-info R0, "
+        "disconnect) and session 2 (register, uod-info R, ending); every parameter-less GET route that lists the unit "
+        "for a user holding the latest roles is judged for U at four points (online 1 / offline 1 against R0, online 2 "
+        "/ offline 2 against R), every GET route with a unit id is requested for the offline unit at the end; so all "
+        "(R0, R1, U) triples over the universe are enumerated. distinct = (method, route, R, U, world) resp. (route, "
+        "R0, R1, U, point, ending); non-trivial = R is non-empty resp. R0 != R1 (a role "
         "decision is actually taken). Seed varies sentinel strings, role names, ids and route order only.")
 ASSUMPTIONS = [
     "roles reach the handlers only through the FastAPI dependencies auth.user_roles/user_id/user_name (overridden by the "
@@ -50,9 +61,18 @@ ASSUMPTIONS = [
     "initialize(engineId)/didOpen/completion/hover; lint (debounced on a wall-clock timer thread) is not driven",
     "the rpc channel mock stands for the engine: any call of channel.other.dispatch_message_async is 'reached the engine'",
     "frontend pubsub topics (/api/frontend-pubsub) carry no unit data and are outside the quantifier",
+    "the roles a unit requires are those of the UodInfoMsg of its LATEST session; an offline unit keeps them. The "
+    "window between the registration of a session and its UodInfoMsg (no roles known yet) is not judged, nor is a "
+    "session that ends before it sent a UodInfoMsg (not generated)",
+    "an aggregator restart is emulated by Aggregator.shutdown() followed by emptying the engine-data and channel maps "
+    "in place; the database file is kept",
 ]
 REQUIRED = {"denied_checks": 150, "authorised_ok": 300, "listing_checks": 20, "rpc_seen_on_control": 10,
-            "ws_denied_checks": 5, "ws_authorised_ok": 5, "id_routes_discovered": 16 * 20}
+            "ws_denied_checks": 5, "ws_authorised_ok": 5, "id_routes_discovered": 16 * 20,
+            "two_session_engines": 16 * 8, "two_session_offline_denied_checks": 60,
+            "two_session_offline_authorised_listed": 100, "two_session_tightened_offline_denied_checks": 18,
+            "two_session_relaxed_offline_authorised_listed": 18, "two_session_after_shutdown_checks": 64,
+            "two_session_offline_id_route_requests": 16 * 8 * 10}
 EXHAUSTIVE_ALL = True
 
 ID_PARAM = re.compile(r"(unit|engine|run)", re.I)
@@ -261,6 +281,54 @@ class Rig:
             if self.srv.aggregator.get_registered_engine_data(eid) is not None:
                 raise RuntimeError("rig: engine did not go offline")
         return w
+
+    # ---- light-weight sessions of one engine id (two-session scenarios)
+    def open_session(self, key: str, roles: set[str], S: Sent, session_no: int):
+        """register (REST) + websocket (mock channel) + UodInfoMsg(required_roles=roles) + one tags update. The engine
+        id depends on `key` only, so a second call with the same key is a new session of the same engine."""
+        from unittest.mock import Mock, AsyncMock
+        from fastapi_websocket_rpc.schemas import RpcResponse
+        import openpectus.protocol.engine_messages as EM
+        import openpectus.protocol.models as PM
+        from openpectus.protocol.serialization import serialize
+        from openpectus.protocol.dispatch_interface import AGGREGATOR_REST_PATH
+        from openpectus import __version__
+        reg = EM.RegisterEngineMsg(computer_name=f"opvtwo{key}x{S.tok}", uod_name=f"opvuod{key}",
+                                   uod_author_name=S(f"AUTHOR{key}S{session_no}"), uod_author_email=S("EMAIL"),
+                                   uod_filename=S("UODFILE"), location=S(f"LOC{key}S{session_no}"),
+                                   engine_version=__version__)
+        r = self.client.post(AGGREGATOR_REST_PATH, json=serialize(reg))
+        if r.status_code != 200 or not r.json().get("success"):
+            raise RuntimeError(f"rig: engine registration failed: {r.status_code} {r.text[:200]}")
+        eid = r.json()["engine_id"]
+        ch = Mock(close=AsyncMock(), other=Mock(
+            get_engine_id_async=AsyncMock(return_value=RpcResponse[str | None](result=eid, result_type=None)),
+            dispatch_message_async=AsyncMock()))
+        self.client.portal.call(self.srv.dispatcher._on_delayed_client_connect, ch)
+        if not self.srv.dispatcher.has_connected_engine_id(eid):
+            raise RuntimeError("rig: mock rpc channel was not accepted")
+        self._dispatch(EM.UodInfoMsg(engine_id=eid, readings=[], commands=[],
+                                     uod_definition=PM.UodDefinition(commands=[], system_commands=[], tags=[]),
+                                     plot_configuration=PM.PlotConfiguration.empty(), hardware_str=S(f"HW{key}"),
+                                     required_roles=set(roles), data_log_interval_seconds=1.0))
+        self._dispatch(EM.TagsUpdatedMsg(engine_id=eid, run_id=None, tags=[
+            PM.TagValue(name="System State", tick_time=1000.0 * session_no, value="Stopped", value_unit=None)]))
+        ed = self.srv.aggregator.get_registered_engine_data(eid)
+        if ed is None or set(ed.required_roles) != set(roles):
+            raise RuntimeError("rig: session engine data missing or roles not applied")
+        return eid, ch
+
+    def close_session(self, eid, ch):
+        self.client.portal.call(self.srv.dispatcher.on_client_disconnect, ch)
+        if self.srv.aggregator.get_registered_engine_data(eid) is not None:
+            raise RuntimeError("rig: engine did not go offline")
+
+    def restart_aggregator(self):
+        """Aggregator.shutdown() (what the server's lifespan runs), then the process is 'gone': the in-memory maps are
+        emptied in place, the database stays."""
+        self.client.portal.call(self.srv.aggregator.shutdown)
+        self.srv.aggregator._engine_data_map.clear()
+        self.srv.dispatcher._engine_id_channel_map.clear()
 
     # ---- mutable state (only what the routes can change) is restored between requests
     def snapshot(self, w):
@@ -697,6 +765,10 @@ def _run(rig: Rig, res: Result, only=None):
                 else:
                     res.count("ws_authorised_incomplete")
                     inconclusive_routes[f"WS {route.path} [{wname}]"] = f"authorised conversation returned data only in {leaks}"
+    # ------------------------------------------------------------------ two sessions of one engine id, roles changed
+    if not only or list(only)[0] == "SESSIONS":
+        _two_sessions(rig, res, spec_case, plain_get, id_routes, fake, only)
+
     other_ws = sorted(r.path for r in ws_routes if not r.path.startswith("/api/lsp"))
     if other_ws:
         res.notes.append(f"websocket routes not exercised (engine rpc / frontend pubsub, no unit data in scope): {other_ws}")
@@ -708,6 +780,132 @@ def _run(rig: Rig, res: Result, only=None):
                          f"non-existent-id answer (counted, not judged): {sorted(ambiguous)}")
     for k in sorted(inconclusive_routes):
         res.notes.append(f"inconclusive for route {k}: {inconclusive_routes[k]}")
+
+
+def _access(required: set, user: set) -> bool:
+    return not required or bool(required & user)
+
+
+def _two_sessions(rig: Rig, res: Result, spec_case, plain_get, id_routes, fake, only=None):
+    """Runs last in the shard: the aggregator restart at the end takes every online unit down."""
+    U, R1 = rig.U, rig.R
+    S2 = Sent(rig.rnd, prefix="OPVTWO")
+    universe = rig.spec["universe"]
+    engines = []
+    for i, r0 in enumerate(_subsets(universe)):
+        for ending in ("disconnect", "shutdown"):
+            key = f"k{len(engines)}e"
+            engines.append({"key": key, "R0": {rig.role_name[r] for r in r0}, "r0": r0, "ending": ending,
+                            "eid": None, "ch": None})
+    all_ids = [fake["unit"], fake["run"]]
+
+    def marks(e):
+        return [e["eid"], S2(f"LOC{e['key']}S"), S2(f"AUTHOR{e['key']}S"), S2(f"HW{e['key']}")]
+
+    def judge_listings(point: str, latest_of, online: bool):
+        """every parameter-less GET route, one request as U, one control request per distinct latest role set"""
+        for route in plain_get:
+            if only and list(only)[1:2] != [route.path]:
+                continue
+            params = build_params(route, rig)
+            status, text = rig.request(U, "GET", route.path, params)
+            controls: dict = {}
+            for e in engines:
+                latest = latest_of(e)
+                ck = tuple(sorted(latest))
+                if ck not in controls:
+                    controls[ck] = rig.request(latest, "GET", route.path, params)
+                c_status, c_text = controls[ck]
+                if e["eid"] not in c_text:
+                    continue               # the route does not list this unit for an authorised user: not a listing of it
+                allowed = _access(latest, U)
+                earlier = e["R0"] if point in ("online_2", "offline_2") else None
+                changed = earlier is not None and earlier != latest
+                present = [m for m in marks(e) if m in text]
+                case = {"spec": spec_case, "only": ["SESSIONS", route.path], "world": point}
+                res.case(("GET", route.path, tuple(e["r0"]), tuple(rig.spec["R"]), tuple(rig.spec["U"]), point, e["ending"])
+                         if changed else None,
+                         sample={"route": "GET " + route.path, "point": point, "R0": sorted(e["R0"]), "R1": sorted(R1),
+                                 "latest": sorted(latest), "U": sorted(U), "ending": e["ending"], "listed": bool(present)})
+                kind = "online" if online else "offline"
+                if point == "offline_2" and e["ending"] == "shutdown":
+                    res.count("two_session_after_shutdown_checks")
+                if not allowed:
+                    res.count(f"two_session_{kind}_denied_checks")
+                    stale_allows = changed and _access(earlier, U)
+                    if stale_allows and not online:
+                        res.count("two_session_tightened_offline_denied_checks")
+                    if present:
+                        mech = "C32.listing_includes_denied_unit"
+                        if stale_allows and not online:
+                            # causal shape: offline, the roles changed between the sessions, the roles of the EARLIER
+                            # session admit the user, those of the latest do not, and the unit is listed
+                            mech = "C32.offline_listing_filtered_by_roles_of_earlier_session"
+                        res.violation(mech, f"GET {route.path} [{point}, ending={e['ending']}]: {kind} unit {e['eid']} "
+                                      f"requires {sorted(latest)} since its latest session (earlier session: "
+                                      f"{sorted(e['R0'])}) but is returned to user roles {sorted(U)}: {present[:3]}", case)
+                else:
+                    stale_denies = changed and not _access(earlier, U)
+                    if e["eid"] in text:
+                        res.count(f"two_session_{kind}_authorised_listed")
+                        if stale_denies and not online:
+                            res.count("two_session_relaxed_offline_authorised_listed")
+                    else:
+                        mech = "C32.listing_omits_authorised_unit_or_run"
+                        if stale_denies and not online:
+                            mech = "C32.offline_listing_hides_unit_by_roles_of_earlier_session"
+                        res.violation(mech, f"GET {route.path} [{point}, ending={e['ending']}]: {kind} unit {e['eid']} "
+                                      f"requires {sorted(latest)} since its latest session (earlier session: "
+                                      f"{sorted(e['R0'])}) and is listed for roles {sorted(latest)} but not for user "
+                                      f"roles {sorted(U)}", case)
+
+    # session 1
+    for e in engines:
+        e["eid"], e["ch"] = rig.open_session(e["key"], e["R0"], S2, 1)
+        all_ids.append(e["eid"])
+        res.count("two_session_engines")
+    judge_listings("online_1", lambda e: e["R0"], online=True)
+    for e in engines:
+        rig.close_session(e["eid"], e["ch"])
+    judge_listings("offline_1", lambda e: e["R0"], online=False)
+    # session 2: same engine ids, the UOD now requires R1
+    for e in engines:
+        eid, e["ch"] = rig.open_session(e["key"], R1, S2, 2)
+        if eid != e["eid"]:
+            raise RuntimeError("rig: second session got another engine id")
+    judge_listings("online_2", lambda e: R1, online=True)
+    for e in engines:
+        if e["ending"] == "disconnect":
+            rig.close_session(e["eid"], e["ch"])
+    rig.restart_aggregator()
+    if rig.srv.aggregator.get_all_registered_engine_data():
+        raise RuntimeError("rig: emulated restart left engine data behind")
+    judge_listings("offline_2", lambda e: R1, online=False)
+
+    # every GET route with a unit id, for the offline units (run ids: a non-existent one)
+    for route in id_routes:
+        if "GET" not in route.methods or (only and list(only)[1:2] != [route.path]):
+            continue
+        params = build_params(route, rig)
+        n_status, n_text = rig.request(U, "GET", build_url(route, fake, "opvline"), params)
+        for e in engines:
+            url = build_url(route, {"unit": e["eid"], "run": fake["run"]}, "opvline")
+            status, text = rig.request(U, "GET", url, params)
+            res.count("two_session_offline_id_route_requests")
+            case = {"spec": spec_case, "only": ["SESSIONS", route.path], "world": "offline_2"}
+            same = (status, _norm(text, all_ids)) == (n_status, _norm(n_text, all_ids))
+            if same:
+                res.count("two_session_offline_id_route_same_as_nonexistent")
+            if _access(R1, U):
+                continue
+            leaked = [m for m in marks(e)[1:] if m in text]
+            if leaked or (200 <= status < 300 and not same):
+                res.violation("C32.offline_unit_route_served_denied_user",
+                              f"GET {route.path}: offline unit {e['eid']} requires {sorted(R1)} since its latest session "
+                              f"(earlier: {sorted(e['R0'])}); user roles {sorted(U)} got {status} {text[:160]!r} "
+                              f"(non-existent id: {n_status})", case)
+            elif status in REFUSED:
+                res.count("two_session_offline_id_route_refused")
 
 
 def replay(case):
